@@ -380,6 +380,8 @@ def report_bad(ctx, bad, sig_fn, desc_fn, replay_fn, confirm_fn, max_report=6):
         groups.setdefault(k, []).append(ev)
         where.setdefault(k, (tr, i))
     reported = 0
+    confirmed = 0
+    unreproduced = []
     for k, evs in groups.items():
         sig = json.loads(k)
         ev = evs[0]
@@ -393,11 +395,19 @@ def report_bad(ctx, bad, sig_fn, desc_fn, replay_fn, confirm_fn, max_report=6):
                 # preceded it in the same trace, in growing windows; reproduced = the LAST case is rejected again.
                 rep = _confirm_with_history(ctx, where[k], rep, replay_fn, confirm_fn)
                 if rep is None:
-                    raise MachineryError("a rejected event did not reproduce from its replay object (alone, or after the cases "
-                                         "that preceded it in its driver process): %s" % json.dumps(replay_fn(ev))[:600])
+                    # not a verdict by itself; it only decides the run when NO group of rejected events reproduces (below)
+                    unreproduced.append(json.dumps(replay_fn(ev))[:600])
+                    continue
             reported += 1
+            confirmed += 1
         ctx.add_violation(desc_fn(ev) + (" (+%d more events with this signature)" % (len(evs) - 1) if len(evs) > 1 else ""),
                           sig, rep)
+    if unreproduced:
+        if confirmed == 0:
+            raise MachineryError("a rejected event did not reproduce from its replay object (alone, or after the cases "
+                                 "that preceded it in its driver process): %s" % unreproduced[0])
+        # some other group of rejected events DID reproduce against the real code: that is the verdict; these are only noted
+        log("note: %d more group(s) of rejected events did not reproduce from their replay objects: %s" % (len(unreproduced), unreproduced[0][:300]))
     return groups
 
 
